@@ -11,7 +11,9 @@
 // scheduling point at the new acquisition. Functions that run with a lock held
 // across their whole body can be excluded with -skip.
 //
-// usage: autoyield [-names atomic|lock] [-skip f1,f2] <label> <in.go> <out.go>
+// With -names both, both kinds of operation get a yield point.
+//
+// usage: autoyield [-names atomic|lock|both] [-skip f1,f2] <label> <in.go> <out.go>
 package main
 
 import (
@@ -94,15 +96,20 @@ func rewriteList(label string, fset *token.FileSet, list []ast.Stmt) []ast.Stmt 
 }
 
 func main() {
-	names := flag.String("names", "atomic", "atomic | lock")
+	names := flag.String("names", "atomic", "atomic | lock | both")
 	skip := flag.String("skip", "", "comma-separated function names to leave alone")
 	flag.Parse()
 	if flag.NArg() != 3 {
 		fmt.Fprintln(os.Stderr, "usage: autoyield [-names atomic|lock] [-skip f1,f2] <label> <in.go> <out.go>")
 		os.Exit(2)
 	}
-	if *names == "lock" {
+	switch *names {
+	case "lock":
 		atomicNames = lockNames
+	case "both":
+		for k := range lockNames {
+			atomicNames[k] = true
+		}
 	}
 	skipped := map[string]bool{}
 	for _, f := range strings.Split(*skip, ",") {
